@@ -103,12 +103,38 @@ Definition report_code2 (rate : Z) (ul : bool) (h : list sop) (now : Z) (r : sre
   | c => c
   end.
 
+(* Round-3 strengthening: the ZERO-PRODUCT corner of "advanced by the elapsed wall
+   time times the clock rate".  When the clock rate is 0 (a stream bound with
+   StreamInfo.ClockRate = 0 - "all clock rates") or the report is taken at the
+   reference instant itself (elapsed = 0), the advance is exactly 0 whatever the
+   other factor is, so the report must carry the reference timestamp EXACTLY
+   (no float tolerance: x * 0.0 = +-0.0 in binary64, uint32(+-0.0) = 0; theorems
+   C07_rtp_kernel_rate_zero / C07_rtp_kernel_zero_elapsed).  Codes 4 / 6 allow one
+   tick there.  Checked for |elapsed| <= MaxDur.  Separate failure code 7;
+   [report_code], [report_code2] and their lemmas stay as they were. *)
+Definition rtp_zero_okb (rate : Z) (ref : option (Z * Z)) (now rtp : Z) : bool :=
+  match ref with
+  | None => true
+  | Some (ts, t) =>
+      let d := now - t in
+      if (- MaxDur <=? d) && (d <=? MaxDur) && ((rate =? 0) || (d =? 0))
+      then (rtp - ts) mod 4294967296 =? 0
+      else true
+  end.
+
+Definition report_code3 (rate : Z) (ul : bool) (h : list sop) (now : Z) (r : srep) : nat :=
+  match report_code2 rate ul h now r with
+  | O => let '(_, rtp, _, _) := r in
+         if negb (rtp_zero_okb rate (sp_ref (sp_accepted ul [] h)) now rtp) then 7%nat else 0%nat
+  | c => c
+  end.
+
 (* walk the ops; [pre] is the history so far in reverse *)
 Fixpoint core_code (rate : Z) (ul : bool) (pre : list sop) (ops : list cop) : nat :=
   match ops with
   | [] => 0%nat
   | CRep now ntp rtp pc oc :: tl =>
-      match report_code2 rate ul (rev pre) now (ntp, rtp, pc, oc) with
+      match report_code3 rate ul (rev pre) now (ntp, rtp, pc, oc) with
       | O => core_code rate ul pre tl
       | c => c
       end
@@ -191,7 +217,7 @@ Fixpoint tick_code (ul : bool) (pre : list caop) (now : Z) (reps : list (Z * sre
       match proj_hist ssrc pre [] with
       | None => 5%nat
       | Some (rate, h) =>
-          match report_code2 rate ul h now r with
+          match report_code3 rate ul h now r with
           | O => tick_code ul pre now tl
           | c => c
           end
@@ -320,3 +346,8 @@ Section OracleSound2.
     rewrite R. reflexivity.
   Qed.
 End OracleSound2.
+
+(* ---- round-3 strengthening: the extended oracle (code 7, zero product) implies the previous one ---- *)
+Lemma report_code3_zero rate ul h now r :
+  report_code3 rate ul h now r = 0%nat -> report_code2 rate ul h now r = 0%nat.
+Proof. unfold report_code3. destruct (report_code2 rate ul h now r); [reflexivity|discriminate]. Qed.
